@@ -377,7 +377,8 @@ pub fn check(c: &Case, o: &Seen) -> Vec<(String, String)> {
         if contains_marker {
             v.push(("plaintext-on-wire".into(), format!("application bytes of a {} request appeared on the wire in the clear", c.scheme)));
         }
-        let bare = c.host.trim_start_matches('[').trim_end_matches(']');
+        // the host of the URI: without user information, without the brackets of an IPv6 literal
+        let bare = c.host.rsplit('@').next().unwrap_or(c.host).trim_start_matches('[').trim_end_matches(']');
         let is_ip = bare.parse::<std::net::IpAddr>().is_ok();
         let should_succeed = match &c.peer {
             // a corrupted byte that the handshake does not authenticate (a record-header version
@@ -436,7 +437,7 @@ pub fn check(c: &Case, o: &Seen) -> Vec<(String, String)> {
 pub fn cases(thorough: bool, flight_len: usize, flight_len_ip: usize) -> Vec<Case> {
     let mut v = vec![];
     let schemes = ["http", "https", "ws", "wss", "ftp"];
-    let hosts = ["example.com", "EXAMPLE.com", "localhost", "127.0.0.1", "[::1]", "a_b.test", "exa$mple.com", "-", "other.test", "a..b"];
+    let hosts = ["example.com", "EXAMPLE.com", "localhost", "127.0.0.1", "[::1]", "a_b.test", "exa$mple.com", "-", "other.test", "a..b", "user:pw@example.com", "u@[::1]"];
     let ports = [None, Some(443u16), Some(8443)];
     for scheme in schemes {
         for host in hosts {
@@ -646,8 +647,8 @@ pub fn run(args: &Args) -> i32 {
                 let _ = run.finish();
                 return 2;
             }
-            let bare = c.host.trim_start_matches('[').trim_end_matches(']');
-            let hk = if c.host.starts_with('[') { "ipv6-literal" } else if bare.parse::<std::net::Ipv4Addr>().is_ok() { "ipv4" } else { "name" };
+            let bare = c.host.rsplit('@').next().unwrap_or(c.host).trim_start_matches('[').trim_end_matches(']');
+            let hk = if c.host.contains('@') { "with-userinfo" } else if c.host.starts_with('[') { "ipv6-literal" } else if bare.parse::<std::net::Ipv4Addr>().is_ok() { "ipv4" } else { "name" };
             run.violation(format!("{sub} scheme={} host-kind={hk} peer={peer_class}", c.scheme), format!("{msg}; uri {} peer {:?}", c.uri(), c.peer), json!({"engine":"schedmc-c12","uri":c.uri(),"scheme":c.scheme,"host":c.host,"port":c.port,"peer":format!("{:?}", c.peer),"peer_spec":peer_json(&c.peer),"client_alpn":c.client_alpn,"via_client":c.via_client,"io":{"corrupt":c.io.corrupt.map(|(a,m)| vec![a as u64, m as u64]),"frag":c.io.frag,"bufsize":c.io.bufsize}}));
         }
     }
